@@ -331,6 +331,9 @@ def verify_function(prog, db, q, contract, case=None):
                         ex.oblige(s, 'post', g, a, text='establishes self.%s == %s' % (k2, ast.unparse(a)[:120]))
                         s.assume(g)
                 for exc, cl in raises.items():
+                    if 'must' in cl.kw:
+                        g = NOT(ex.truth(ex.evs(cl.kw['must'], loc), loc))
+                        ex.oblige(s, 'post:no-%s' % exc, g, cl.kw['must'], text='normal return only when not (%s)' % ast.unparse(cl.kw['must'])[:120])
                     if 'when' in cl.kw:
                         g = NOT(ex.truth(ex.evs(cl.kw['when'], loc), loc))
                         s.pc[:] = loc.pc
@@ -370,6 +373,9 @@ def verify_function(prog, db, q, contract, case=None):
             else:
                 if v in raises:
                     cl = raises[v]
+                    if 'may' in cl.kw:
+                        g = ex.truth(ex.evs(cl.kw['may'], loc), loc)
+                        ex.oblige(s, 'raises:%s' % v, g, cl.kw['may'], text='%s raised only when %s' % (v, ast.unparse(cl.kw['may'])[:120]))
                     if 'when' in cl.kw:
                         apply_hints(ex, contract, 'raise', loc, s)
                         g = ex.truth(ex.evs(cl.kw['when'], loc), loc)
